@@ -297,6 +297,9 @@ class ExtMixin(object):
                 d.items = dict(src.items)
             elif isinstance(src, SeqV) and src.kind == "seqmap" and isinstance(src.elem, ListV) and len(src.elem.items) == 2:
                 return LoopDictV(src.var, src.seq, src.elem.items[0], src.elem.items[1])
+            elif isinstance(src, SeqV) and src.kind == "family" and isinstance(src.elem, ListV) and len(src.elem.items) == 2:
+                idx = SeqV("family", var=src.var, lo=src.lo, hi=src.hi, elem=Num(ep.sym(src.var)))
+                return LoopDictV(src.var, idx, src.elem.items[0], src.elem.items[1])
             elif isinstance(src, ListV) and all(isinstance(i, ListV) and len(i.items) == 2 for i in src.items):
                 for it in src.items:
                     d.items[it.items[0].key()] = (it.items[0], it.items[1])
@@ -308,6 +311,21 @@ class ExtMixin(object):
 
     def x_sorted(self, args, kwargs, node, env):
         v = args[0]
+        if isinstance(v, NTV):
+            v = ListV(list(v.values), "list")
+        if isinstance(v, Opaque):
+            v = self.as_iterable(v, node)
+        if kwargs and set(kwargs) <= {"key", "reverse"} and not isinstance(kwargs.get("key"), CmpKeyV):
+            src = self.as_iterable(v, node)
+            if isinstance(src, SeqV) and src.kind in ("opaque", "seqmap", "family"):
+                # a symbolic sequence re-ordered by a key we do not evaluate: some permutation of it, identified by the key
+                kk = tuple(sorted((k, val.key()) for k, val in kwargs.items()))
+                path = ("sorted_by", src.key(), kk)
+                out = SeqV("opaque", path=path, elem_class=getattr(src, "elem_class", None))
+                out.length = self.seq_len(src)
+                if getattr(src, "elem_class", None) is not None:
+                    self.elem_classes[path] = src.elem_class
+                return out
         if kwargs:
             if set(kwargs) == {"key"} and isinstance(kwargs["key"], CmpKeyV):
                 # sorted(xs, key=cmp_to_key(f)) is list(xs) followed by .sort(key=cmp_to_key(f))
@@ -331,11 +349,22 @@ class ExtMixin(object):
                     return ListV([v.items[j] for j in order], "list")
                 except TypeError:
                     pass
+            # tuples compare lexicographically: concrete, pairwise distinct leading components decide the order
+            if v.items and all(isinstance(i, ListV) and i.items for i in v.items):
+                heads = [_concrete_key(i.items[0]) for i in v.items]
+                if all(h is not None for h in heads) and len(set(heads)) == len(heads):
+                    try:
+                        order = sorted(range(len(heads)), key=lambda j: heads[j])
+                        return ListV([v.items[j] for j in order], "list")
+                    except TypeError:
+                        pass
             return SortedV(v.items)
         if isinstance(v, SetAccV):
             return v.as_sorted()
         if isinstance(v, SeqV) and v.kind in ("seqmap", "family", "opaque"):
-            return SeqV("opaque", path=("sorted", v.key()), elem_class=None)
+            out = SeqV("opaque", path=("sorted", v.key()), elem_class=None)
+            out.length = self.seq_len(v)
+            return out
         if isinstance(v, BoundBuiltin) and v.name in ("keys",):
             return self.x_sorted([v.base], {}, node, env)
         if isinstance(v, LoopDictV):
@@ -389,6 +418,13 @@ class ExtMixin(object):
                 else:
                     elems.append(self.subst(i.elem, {i.var: ep.sym(var)}))
             return SeqV("seqmap", var=var, seq=bases[0], elem=ListV(elems, "tuple"))
+        if all(isinstance(i, SeqV) and i.kind in ("opaque", "seqmap", "family") for i in its):
+            lens = [self.seq_len(i) for i in its]
+            if all(ep.equal(lens[0], l)[0] for l in lens[1:]):
+                # positional pairing of sequences of the same length
+                var = self.fresh_sym("z")
+                elems = [self.seq_elem(i, ep.sym(var)) if i.kind != "family" else self.seq_elem(i, ep.sym(var) + i.lo) for i in its]
+                return SeqV("family", var=var, lo=ep.const(0), hi=lens[0], elem=ListV(elems, "tuple"))
         self.err(node, "zip of symbolic sequences")
 
     def x_iter(self, args, kwargs, node, env):
